@@ -130,9 +130,42 @@ func mkConfigs(c Config, sh shape) (*security.SecurityConfig, *security.Security
 
 func runConfig(c Config) (string, string) {
 	sh := shapes[c.Shape]
-	e := table(c, sh)
 	cc, sc := mkConfigs(c, sh)
-	r := kit.Handshake(cc, sc, 10*time.Second)
+	return judgeHandshake(c, kit.Handshake(cc, sc, 10*time.Second))
+}
+
+// runPerCommand: the server's policy for the command is ONE policy object handed out by
+// ServerConfigForCommand on every connection (as an application keeping a table of per-command
+// policies does) over an all-OPTIONAL base policy; three connections in a row, each a full handshake.
+func runPerCommand(c Config) (string, string) {
+	sh := shapes[c.Shape]
+	_, pol := mkConfigs(c, sh)
+	class := ""
+	for conn := 0; conn < 3; conn++ {
+		cc, _ := mkConfigs(c, sh) // a fresh client (own empty cache): no resumption
+		base := *pol
+		base.Authentication, base.Encryption, base.Integrity = security.SecurityOptional, security.SecurityOptional, security.SecurityOptional
+		base.ECDHPublicKey = ""
+		r := kit.HandshakeHook(cc, &base, 10*time.Second, func(a *security.Authenticator) {
+			a.ServerConfigForCommand = func(command int) *security.SecurityConfig {
+				if command == cc.Command {
+					return pol
+				}
+				return nil
+			}
+		})
+		var v string
+		v, class = judgeHandshake(c, r)
+		if v != "" {
+			return fmt.Sprintf("per-command policy object reused, connection #%d: %s", conn+1, v), class
+		}
+	}
+	return "", "per-command/" + class
+}
+
+func judgeHandshake(c Config, r *kit.HSResult) (string, string) {
+	sh := shapes[c.Shape]
+	e := table(c, sh)
 	class := "succeeds"
 	if e.fail {
 		class = "fails"
@@ -233,6 +266,41 @@ func allConfigs(shapeSel func(int) bool, full bool) []Config {
 	return out
 }
 
+// TestC10PerCommand: the level matrix again with the server's policy delivered per command.
+func TestC10PerCommand(t *testing.T) {
+	var mu sync.Mutex
+	bad := 0
+	sem := make(chan struct{}, 12)
+	var wg sync.WaitGroup
+	n := 0
+	for i, c := range allConfigs(func(s int) bool { return s == 0 || s == 1 }, false) {
+		if i%kit.NShards() != kit.Shard() {
+			continue
+		}
+		n++
+		wg.Add(1)
+		sem <- struct{}{}
+		go func(c Config) {
+			defer wg.Done()
+			defer func() { <-sem }()
+			v, class := runPerCommand(c)
+			b, _ := json.Marshal(c)
+			ev.Case(class, "percmd"+string(b))
+			if v != "" {
+				mu.Lock()
+				if bad < 6 {
+					kit.Violation("C10", v, map[string]any{"per_command": true, "config": c})
+					t.Errorf("C10 violated: %s (config %+v)", v, c)
+				}
+				bad++
+				mu.Unlock()
+			}
+		}(c)
+	}
+	wg.Wait()
+	ev.Exhaustive("all 256 level cells x 2 list shapes with the server policy handed out per command as one shared object, 3 connections in a row each")
+}
+
 func runAll(t *testing.T, cfgs []Config) {
 	var mu sync.Mutex
 	bad := 0
@@ -299,16 +367,28 @@ func TestC10Matrix(t *testing.T) {
 }
 
 func TestC10Replay(t *testing.T) {
-	var c Config
-	ok, err := kit.ReplayCase(&c)
+	var w struct {
+		Config
+		PerCommand bool    `json:"per_command"`
+		Inner      *Config `json:"config"`
+	}
+	ok, err := kit.ReplayCase(&w)
 	if !ok {
 		t.Skip("no VERIF_REPLAY")
 	}
 	if err != nil {
 		t.Fatal(err)
 	}
+	c := w.Config
+	if w.PerCommand && w.Inner != nil {
+		c = *w.Inner
+	}
 	parseLevels(&c)
-	if v, _ := runConfig(c); v != "" {
+	run := runConfig
+	if w.PerCommand {
+		run = runPerCommand
+	}
+	if v, _ := run(c); v != "" {
 		t.Fatalf("C10 violated: %s", v)
 	}
 }
